@@ -67,6 +67,9 @@ type Bounds struct {
 	entry     FactSet // facts that hold on entry (analysis in the context of one call)
 	Caller    *Bounds // the analysis this one was started from (call context)
 	CallSite  *ast.CallExpr
+	captured  bool                       // a function literal: variables of enclosing functions are visible
+	funcArgs  map[types.Object]*boundLit // function-typed parameters bound to literals by the call context
+	back      map[types.Object]*BTerm    // this function's receiver/parameters -> the caller's variables they were bound to
 }
 
 // Summary of a callee: facts over its parameters that hold whenever it
@@ -266,7 +269,12 @@ func (b *Bounds) local(o types.Object) bool {
 	if v.Parent() == nil || v.Parent() == v.Pkg().Scope() {
 		return false
 	}
-	// declared inside this function (parameters included)
+	// declared inside this function (parameters included); a literal analysed
+	// in the context of its call also sees the variables of the functions around it
+	if b.captured {
+		root := b.F.Root()
+		return v.Pos() >= root.Node().Pos() && v.Pos() <= root.Node().End()
+	}
 	return v.Pos() >= b.F.Node().Pos() && v.Pos() <= b.F.Node().End()
 }
 
@@ -729,6 +737,34 @@ func (b *Bounds) Term(e ast.Expr) *BTerm {
 				return nil
 			}
 			return mkTerm(&BTerm{K: TLen, Args: []*BTerm{a}, Typ: types.Typ[types.Int]})
+		}
+		// a function-typed parameter bound to a literal `func(a…) T { return <expr over a…> }`
+		if id, ok := ast.Unparen(x.Fun).(*ast.Ident); ok && b.funcArgs != nil {
+			if bl, ok := b.funcArgs[ObjOf(info, id)]; ok && len(bl.lit.Body.List) == 1 {
+				if ret, ok := bl.lit.Body.List[0].(*ast.ReturnStmt); ok && len(ret.Results) == 1 {
+					if lf := b.P.LitFunc(b.F.PkgRel(), bl.lit); lf != nil {
+						lb := AnalyseBoundsWith(b.P, lf, b.summaries)
+						if rt := lb.Term(ret.Results[0]); rt != nil {
+							sub := map[types.Object]*BTerm{}
+							okArgs := true
+							for i, pv := range lf.Params() {
+								if i < len(x.Args) {
+									if a := b.Term(x.Args[i]); a != nil {
+										sub[pv] = a
+										continue
+									}
+								}
+								okArgs = false
+							}
+							if okArgs {
+								if r, ok := substTerm(rt, sub); ok {
+									return r
+								}
+							}
+						}
+					}
+				}
+			}
 		}
 		// a module function that maps constants to constants by a switch
 		if len(x.Args) == 1 {
@@ -1393,6 +1429,37 @@ func (b *Bounds) assign(fs FactSet, lhs ast.Expr, rhs ast.Expr, at ast.Node) {
 			}
 		}
 	}
+	// a struct literal assigned to a local: lengths of its slice fields and
+	// values of its integer fields
+	if lt != nil && lt.K == TVar && rhs != nil {
+		if cl, ok := ast.Unparen(rhs).(*ast.CompositeLit); ok {
+			if st, isStruct := info.TypeOf(cl).Underlying().(*types.Struct); isStruct {
+				for i, el := range cl.Elts {
+					var fld *types.Var
+					val := el
+					if kv, isKV := el.(*ast.KeyValueExpr); isKV {
+						fld, _ = ObjOf(info, kv.Key).(*types.Var)
+						val = kv.Value
+					} else if i < st.NumFields() {
+						fld = st.Field(i)
+					}
+					if fld == nil {
+						continue
+					}
+					path := mkTerm(&BTerm{K: TField, Obj: fld, Args: []*BTerm{lt}, Typ: basicInt(fld.Type())})
+					if path.Typ != nil {
+						if rt := b.Term(val); rt != nil && !mentions(rt, lt.key) {
+							gen = append(gen, b.eqFact(path, rt, src))
+						}
+					} else if _, isSlice := fld.Type().Underlying().(*types.Slice); isSlice {
+						if n := b.lenOfExpr(val); n != nil && !mentions(n, lt.key) {
+							gen = append(gen, b.eqFact(mkTerm(&BTerm{K: TLen, Args: []*BTerm{path}, Typ: types.Typ[types.Int]}), n, src))
+						}
+					}
+				}
+			}
+		}
+	}
 	// a boolean local that receives a condition
 	if id, ok := lhs.(*ast.Ident); ok && rhs != nil {
 		if o := ObjOf(info, id); o != nil && b.local(o) {
@@ -1712,6 +1779,13 @@ func isReaderRead(fn *types.Func) bool {
 
 // substTerm replaces parameter variables; ok=false if an unmapped variable remains.
 func substTerm(t *BTerm, sub map[types.Object]*BTerm) (*BTerm, bool) {
+	return substTermG(t, sub, false)
+}
+
+// substTermG is substTerm; with ghosts, an integer variable without mapping is
+// kept as it is: it belongs to another function's frame, which the code the
+// facts are handed to cannot write, so it acts as a symbol.
+func substTermG(t *BTerm, sub map[types.Object]*BTerm, ghosts bool) (*BTerm, bool) {
 	switch t.K {
 	case TConst:
 		return t, true
@@ -1719,12 +1793,21 @@ func substTerm(t *BTerm, sub map[types.Object]*BTerm) (*BTerm, bool) {
 		if r, ok := sub[t.Obj]; ok {
 			return r, true
 		}
+		if ghosts && t.Typ != nil {
+			return t, true
+		}
 		return nil, false
 	}
 	n := *t
 	n.Args = make([]*BTerm, len(t.Args))
 	for i, a := range t.Args {
-		r, ok := substTerm(a, sub)
+		if ghosts && (t.K == TLen || t.K == TField || t.K == TElem) && i == 0 && a.K == TVar {
+			// the root of a path must be mapped
+			if _, mapped := sub[a.Obj]; !mapped {
+				return nil, false
+			}
+		}
+		r, ok := substTermG(a, sub, ghosts)
 		if !ok {
 			return nil, false
 		}
@@ -2309,6 +2392,13 @@ func readOnlyFunc(p *Prog, f *Func, depth int) bool {
 	return ok
 }
 
+// boundLit is a function literal bound to a function-typed parameter, with
+// the analysis of the function that wrote it.
+type boundLit struct {
+	lit     *ast.FuncLit
+	definer *Bounds
+}
+
 // expandLocals rewrites t by replacing variables that have a definition
 // fact (v == R) with their definition, so that the result mentions only
 // variables without one (parameters, receiver, loop counters).
@@ -2373,8 +2463,16 @@ func (b *Bounds) CalleeAt(call *ast.CallExpr) *Bounds {
 		}
 		// caller object -> callee term
 		sub := map[types.Object]*BTerm{}
+		var constArgs []*BFact
 		bind := func(callerExpr ast.Expr, calleeObj types.Object) {
 			t := b.Term(callerExpr)
+			if t != nil && t.K == TConst && calleeObj != nil {
+				if bt := basicInt(calleeObj.Type()); bt != nil {
+					pv := mkTerm(&BTerm{K: TVar, Obj: calleeObj, Typ: bt})
+					constArgs = append(constArgs, cmpFact(pv, token.EQL, mkTerm(&BTerm{K: TConst, Val: t.Val, Typ: bt}), "argument "+b.F.Str(callerExpr)+" [caller "+b.F.Name+"]"))
+				}
+				return
+			}
 			if t == nil || t.K != TVar || calleeObj == nil {
 				return
 			}
@@ -2395,17 +2493,20 @@ func (b *Bounds) CalleeAt(call *ast.CallExpr) *Bounds {
 				}
 			}
 		}
+		for _, f := range constArgs {
+			entry[f.key] = f
+		}
 		for _, f := range fs.List() {
 			switch f.Kind {
 			case 'c':
-				l, ok1 := substTerm(expandLocals(f.L, eq, 0), sub)
-				r, ok2 := substTerm(expandLocals(f.R, eq, 0), sub)
+				l, ok1 := substTermG(expandLocals(f.L, eq, 0), sub, true)
+				r, ok2 := substTermG(expandLocals(f.R, eq, 0), sub, true)
 				if ok1 && ok2 {
 					nf := cmpFact(l, f.Op, r, f.Src+" [caller "+b.F.Name+"]")
 					entry[nf.key] = nf
 				}
 			case 's':
-				if l, ok := substTerm(expandLocals(f.L, eq, 0), sub); ok {
+				if l, ok := substTermG(expandLocals(f.L, eq, 0), sub, true); ok {
 					nf := &BFact{Kind: 's', L: l, Set: f.Set, Src: f.Src + " [caller " + b.F.Name + "]"}
 					nf.key = "s:" + l.key
 					entry[nf.key] = nf
@@ -2416,7 +2517,41 @@ func (b *Bounds) CalleeAt(call *ast.CallExpr) *Bounds {
 	cb := &Bounds{P: b.P, F: cf, G: b.P.Graph(cf), info: cf.Info(), sizes: cf.Pkg.TypesSizes,
 		untracked: map[types.Object]bool{}, addrFree: map[types.Object]bool{}, tables: map[types.Object]*ConstTable{},
 		carry: map[*ast.ForStmt][]*BFact{}, before: map[ast.Node]FactSet{}, edgeT: map[*cfg.Block]FactSet{}, in: map[*cfg.Block]FactSet{},
-		summaries: b.summaries, entry: entry, Caller: b, CallSite: call}
+		summaries: b.summaries, entry: entry, Caller: b, CallSite: call,
+		funcArgs: map[types.Object]*boundLit{}, back: map[types.Object]*BTerm{}}
+	// function-typed parameters bound to literals (directly, or to a parameter the caller has bound)
+	for i, p := range cf.Params() {
+		if i >= len(call.Args) {
+			break
+		}
+		if _, isFn := p.Type().Underlying().(*types.Signature); !isFn {
+			if t := b.Term(call.Args[i]); t != nil && t.K == TVar {
+				cb.back[p] = t
+			}
+			continue
+		}
+		switch a := ast.Unparen(call.Args[i]).(type) {
+		case *ast.FuncLit:
+			cb.funcArgs[p] = &boundLit{lit: a, definer: b}
+		case *ast.Ident:
+			if bl, ok := b.funcArgs[ObjOf(b.info, a)]; ok {
+				cb.funcArgs[p] = bl
+			}
+		}
+	}
+	if cf.Decl.Recv != nil {
+		if sel, ok := ast.Unparen(call.Fun).(*ast.SelectorExpr); ok {
+			if t := b.Term(sel.X); t != nil && t.K == TVar {
+				for _, fl := range cf.Decl.Recv.List {
+					for _, nm := range fl.Names {
+						if o := cf.Info().Defs[nm]; o != nil {
+							cb.back[o] = t
+						}
+					}
+				}
+			}
+		}
+	}
 	cb.prepare()
 	cb.flow()
 	cb.obligations()
@@ -2433,4 +2568,99 @@ func (b *Bounds) ModuleCalls() []*ast.CallExpr {
 		}
 	}
 	return out
+}
+
+// ClosureCalls lists the calls in the function's body through function-typed
+// parameters that the call context binds to literals.
+func (b *Bounds) ClosureCalls() []*ast.CallExpr {
+	var out []*ast.CallExpr
+	if len(b.funcArgs) == 0 {
+		return nil
+	}
+	for _, call := range b.F.AllCalls(false) {
+		if id, ok := ast.Unparen(call.Fun).(*ast.Ident); ok {
+			if _, bound := b.funcArgs[ObjOf(b.info, id)]; bound {
+				out = append(out, call)
+			}
+		}
+	}
+	return out
+}
+
+// ClosureAt analyses the literal bound to the function-typed parameter called
+// at call, in the context of that call: the facts before the call hold on
+// entry, with the literal's parameters for the arguments, this function's
+// receiver/parameters renamed back to the variables of the literal's definer
+// they were bound to (so that captured variables line up), and every other
+// integer variable kept as a symbol.
+func (b *Bounds) ClosureAt(call *ast.CallExpr) *Bounds {
+	id, ok := ast.Unparen(call.Fun).(*ast.Ident)
+	if !ok || b.funcArgs == nil {
+		return nil
+	}
+	bl, ok := b.funcArgs[ObjOf(b.info, id)]
+	if !ok || bl.definer != b.Caller {
+		return nil // only literals written by the direct caller are lined up
+	}
+	lf := b.P.LitFunc(b.F.PkgRel(), bl.lit)
+	if lf == nil || lf.Body == nil {
+		return nil
+	}
+	fs, _ := b.FactsBefore(call)
+	entry := FactSet{}
+	if fs != nil {
+		eq := map[string]*BFact{}
+		for _, f := range fs {
+			if f.Kind == 'e' && f.R != nil {
+				eq[f.L.key] = f
+			}
+		}
+		sub := map[types.Object]*BTerm{}
+		for o, t := range b.back {
+			sub[o] = t
+		}
+		for i, p := range lf.Params() {
+			if i < len(call.Args) {
+				if t := b.Term(call.Args[i]); t != nil && t.K == TVar {
+					sub[t.Obj] = mkTerm(&BTerm{K: TVar, Obj: p, Typ: basicInt(p.Type())})
+				}
+			}
+		}
+		// the literal's own parameters must not collide with symbols kept from this frame
+		for _, f := range fs.List() {
+			switch f.Kind {
+			case 'c':
+				l, ok1 := substTermG(expandLocals(f.L, eq, 0), sub, true)
+				r, ok2 := substTermG(expandLocals(f.R, eq, 0), sub, true)
+				if ok1 && ok2 {
+					nf := cmpFact(l, f.Op, r, f.Src+" [call of the literal in "+b.F.Name+"]")
+					entry[nf.key] = nf
+				}
+			case 's':
+				if l, ok := substTermG(expandLocals(f.L, eq, 0), sub, true); ok {
+					nf := &BFact{Kind: 's', L: l, Set: f.Set, Src: f.Src}
+					nf.key = "s:" + l.key
+					entry[nf.key] = nf
+				}
+			}
+		}
+		// axioms of this frame (monotone counters) as facts
+		for _, ax := range b.axioms {
+			l, ok1 := substTermG(ax.L, sub, true)
+			r, ok2 := substTermG(ax.R, sub, true)
+			if ok1 && ok2 {
+				nf := cmpFact(l, ax.Op, r, ax.Src)
+				entry[nf.key] = nf
+			}
+		}
+	}
+	cb := &Bounds{P: b.P, F: lf, G: b.P.Graph(lf), info: lf.Info(), sizes: lf.Pkg.TypesSizes,
+		untracked: map[types.Object]bool{}, addrFree: map[types.Object]bool{}, tables: map[types.Object]*ConstTable{},
+		carry: map[*ast.ForStmt][]*BFact{}, before: map[ast.Node]FactSet{}, edgeT: map[*cfg.Block]FactSet{}, in: map[*cfg.Block]FactSet{},
+		summaries: b.summaries, entry: entry, Caller: b, CallSite: call, captured: true,
+		funcArgs: map[types.Object]*boundLit{}, back: map[types.Object]*BTerm{}}
+	cb.prepare()
+	cb.flow()
+	cb.obligations()
+	return cb
 }
